@@ -122,6 +122,48 @@ def enumerate_cases(cfg):
             ops.append(['noLongerProvides', ob, [0]])
             ops.append(['providedBy', ob])
             yield {'setup': STD_SETUP, 'ops': ops}
+    # the first call a registry serves after something above it changed,
+    # through every entry point (a verifying registry has to notice by
+    # itself; seed C10b): warm the entry point, change the base, call again
+    setup2 = dict(STD_SETUP)
+    setup2['regs'] = [{'flavour': 'plain', 'bases': []},
+                      {'flavour': 'verifying', 'bases': [0]},
+                      {'flavour': 'verifying', 'bases': [1]},
+                      {'flavour': 'plain', 'bases': [0]}]
+
+    def call(entry, r):
+        if entry in ('lookup', 'lookup1', 'lookupAll', 'names',
+                     'subscriptions'):
+            return [entry, r, [['I', 0]], ['I', 0], '', True]
+        if entry == 'queryMultiAdapter':
+            return [entry, r, [['o', 0]], ['I', 0], '', True]
+        return [entry, r, [['o', 0]], ['I', 0], '', True]
+    changes = [
+        [['register', 0, [['I', 0]], ['I', 0], '', 7, False]],
+        [['unregister', 0, [['I', 0]], ['I', 0], '', None]],
+        [['subscribe', 0, [['I', 0]], ['I', 0], 8, False]],
+        [['unsubscribe', 0, [['I', 0]], ['I', 0], None]],
+        [['rebuild', 0], ['register', 0, [['I', 0]], ['I', 0], '', 9,
+                          False]],
+        [['regbases', 1, []]],
+        [['regbases', 1, [3]]],
+        [['register', 1, [['I', 0]], ['I', 1], '', 10, False]],
+        [['classImplements', ['c', 0], [1]]],
+        [['directlyProvides', ['o', 0], [1]]],
+    ]
+    for entry in ('lookup', 'lookup1', 'lookupAll', 'names', 'subscriptions',
+                  'queryAdapter', 'adapter_hook', 'queryMultiAdapter',
+                  'subscribers'):
+        for r in (1, 2, 3):
+            for change in changes:
+                ops = [['register', 0, [['I', 0]], ['I', 0], '', 1, False],
+                       ['register', 0, [['I', 1]], ['I', 0], '', 2, False],
+                       ['subscribe', 0, [['I', 0]], ['I', 0], 3, False],
+                       call(entry, r), call(entry, r)]
+                ops += change
+                ops += [call(entry, r), call(entry, r), call('lookup', r),
+                        call(entry, r)]
+                yield {'setup': setup2, 'ops': ops}
 
 
 def objref():
